@@ -62,7 +62,12 @@ Schema(c) ==
                        Tag("wd", TNull(TRef("B"))),
                        Tag("wa", TNull(TRef("Ra"))),
                        Tag("wp", TRef("P")),
-                       [n |-> "wx", t |-> TList(Str, Unset, Unset), omit |-> "c2", red |-> red2] >>))
+                       [n |-> "wx", t |-> TList(Str, Unset, Unset), omit |-> "c2", red |-> red2],
+                       \* redactor directly on a nullable member
+                       TagR("wn", TNull(Str), red2),
+                       TagR("wl", TNull(TList(Str, Unset, Unset)), red),
+                       TagR("wm", TNull(TMap(I32)), red2),
+                       [n |-> "wy", t |-> TNull(Str), omit |-> "c1", red |-> red] >>))
 
 Patched == [B |-> {"bp"}]
 Roots == {TRef("B"), TRef("D"), TRef("W"), TRef("P"),
